@@ -2085,7 +2085,6 @@ static WUR iwrc _sblk_rmkv(struct sblk *sblk, uint8_t idx) {
   pthread_spin_lock(&db->cursors_slk);
   for (struct iwkv_cursor *cur = db->cursors; cur; cur = cur->next) {
     if (cur->cn && (cur->cn->addr == sblk->addr)) {
-      cur->skip_next = 0;
       if (cur->cn != sblk) {
         memcpy(cur->cn, sblk, sizeof(*cur->cn));
         cur->cn->kvblk = 0;
